@@ -15,6 +15,13 @@ the public functions of the numeric modules are therefore wrapped (harness-side 
       near    f(a) was just called; now f(a*(1+1e-7))                          -- memo keyed on "close enough" / rounded keys
       alias   f(b); b *= 1.001 in place (the caller re-uses its container); f(b)  -- cache holding a reference
       repeat  f(a) a second time                                               -- state machines driven by repeated calls
+      after-error  f(malformed a) [raises]; f(a); twin-module f(a)             -- state left behind by an exception (found: a context manager
+                                                                                  without try/finally left tools without its 2*pi)
+      ambient-*    f(a) with logging at DEBUG / with xfab.CHECKS off           -- results that depend on process configuration (found: a debug
+                                                                                  formatter scaling the result in place; a rejection moved
+                                                                                  behind the validation switch)
+      retained     f(a) -> r; f(a*1.001); r still holds f(a)                    -- one result buffer shared by all calls
+      result-edit  f(a) -> r; r *= 2 (caller's in-place use); f(a)              -- a memo handing out its own storage
 * layout probe (same schedule): a float ndarray argument passed Fortran-ordered, as a transposed view or as a strided view must give
   the same result (found: a pixel map rewritten on `R_tilt.ravel(order='K')` read a Fortran-ordered tilt matrix transposed).
 * container probe (same schedule): the same numbers passed as a list, a tuple or an ndarray must give the same result (found:
@@ -39,7 +46,7 @@ SKIP = {'trans_orientation', 'image_flipping'}     # return views by design; nev
 NO_PROBE = {'genhkl_all', 'int_intensity', 'interpolate_background', 'trans_orientation', 'image_flipping',
             'CIFopen', 'CIFread', 'PDBread'}
 SLOW = {'genhkl', 'genhkl_base', 'genhkl_unique', 'reduce_cell', 'StructureFactor', 'multiplicity'}   # probed sparsely
-NO_DTYPE = set()
+NO_DTYPE = {'genhkl', 'genhkl_base', 'genhkl_unique', 'genhkl_all'}   # a cell rounded to integers can be degenerate: the walk would not end
 PROBE_FIRST = 6
 PROBE_EVERY = 53
 _depth = [0]
@@ -109,6 +116,56 @@ def _scale_inplace(a, s):
                 ok = _scale_inplace(x, s) or ok
         return ok
     return False
+
+
+def _plain_object(o):
+    return hasattr(o, '__dict__') and not isinstance(o, (type, np.ndarray)) and not callable(o) and not inspect.ismodule(o)
+
+
+def _has_objects(a):
+    """a plain object, or a short list of plain objects, carrying numeric attributes (structure.atom_entry)"""
+    if isinstance(a, (list, tuple)):
+        return 0 < len(a) <= 64 and all(_plain_object(x) for x in a)
+    return _plain_object(a) and not isinstance(a, (str, bytes))
+
+
+def _perturb_objects(a, s):
+    """what a refinement loop does to its atom list: numeric attributes edited IN PLACE (lists / arrays scaled element-wise, float
+    attributes re-assigned)"""
+    ok = False
+    for o in (a if isinstance(a, (list, tuple)) else [a]):
+        for k, v in list(vars(o).items()):
+            if isinstance(v, (list, np.ndarray)):
+                try:
+                    ok = _scale_inplace(v, s) or ok
+                except Exception:
+                    pass
+            elif isinstance(v, (float, np.floating)) and np.isfinite(v):
+                try:
+                    setattr(o, k, type(v)(v * s))
+                    ok = True
+                except Exception:
+                    pass
+    return ok
+
+
+def _object_keys(args):
+    return [[set(vars(o)) for o in (a if isinstance(a, (list, tuple)) else [a])] if _has_objects(a) else None for a in args]
+
+
+def _strip_added(args, keys):
+    """remove from the objects in `args` every attribute that was not there when `keys` was taken (what a call attached to them)"""
+    for a, ks in zip(args, keys):
+        if ks is None or not _has_objects(a):
+            continue
+        for o, k0 in zip((a if isinstance(a, (list, tuple)) else [a]), ks):
+            for k in list(vars(o)):
+                if k not in k0:
+                    try:
+                        delattr(o, k)
+                    except Exception:
+                        pass
+    return args
 
 
 import random as _random
@@ -313,6 +370,10 @@ def _plain(x):
         return [_plain(y) for y in x]
     if isinstance(x, (int, float, str, bool)) or x is None:
         return x
+    if isinstance(x, dict) and len(x) <= 64:
+        return {str(k): _plain(v) for k, v in x.items()}
+    if _plain_object(x) and len(vars(x)) <= 32:
+        return {'__object__': type(x).__name__, 'attrs': {k: _plain(v) for k, v in vars(x).items()}}
     return repr(x)
 
 
@@ -388,33 +449,232 @@ def _probe(modname, name, f, a0, kw, live):
     if _outcome_bits(ref) != b_live:
         _record(modname, name, 'live', a0, kw, live, ref)
         return
+    if _probe_values(modname, name, f, a0, kw, live, ref, b_live):
+        return
+    for extra in (_after_error_probe, _ambient_probe, _retained_probe, _result_edit_probe):
+        try:
+            if extra(modname, name, f, a0, kw, live, ref, b_live):
+                return
+        except Exception:
+            pass
+
+
+def _probe_values(modname, name, f, a0, kw, live, ref, b_live):
     # repeat
     r1 = _call(f, copy.deepcopy(a0), copy.deepcopy(kw))
     if _outcome_bits(r1) != b_live:
         _record(modname, name, 'repeat', a0, kw, r1, ref, first=a0)
-        return
+        return True
     idx = [i for i, a in enumerate(a0) if _numeric(a)]
-    if not idx:
-        return
+    if not idx and not any(_has_objects(a) for a in a0):
+        return False
     # near
     near = tuple(_scaled(a, 1 + 1e-7) if i in idx else copy.deepcopy(a) for i, a in enumerate(a0))
     r1 = _call(f, copy.deepcopy(near), copy.deepcopy(kw))
     r2 = _call(_fresh(modname, name), copy.deepcopy(near), copy.deepcopy(kw))
     if _outcome_bits(r1) != _outcome_bits(r2) and _outcome_bits(r1) is not None and _outcome_bits(r2) is not None:
         _record(modname, name, 'near', near, kw, r1, r2, first=a0)
-        return
-    # alias
-    if any(isinstance(a0[i], (list, np.ndarray)) for i in idx):
+        return True
+    # alias (numeric containers, and the numeric attributes of objects passed in lists: atom entries with .pos/.adp/.occ)
+    if any(isinstance(a0[i], (list, np.ndarray)) for i in idx) or any(_has_objects(a) for a in a0):
         b0 = copy.deepcopy(a0)
+        keys = _object_keys(b0)
         _call(f, b0, copy.deepcopy(kw))
-        for i in idx:
-            if isinstance(b0[i], (list, np.ndarray)):
-                _scale_inplace(b0[i], 1 + 1e-3)
+        for i, a in enumerate(b0):
+            if i in idx and isinstance(a, (list, np.ndarray)):
+                _scale_inplace(a, 1 + 1e-3)
+            elif _has_objects(a):
+                _perturb_objects(a, 1 + 1e-3)
         r1 = _call(f, b0, copy.deepcopy(kw))
-        r2 = _call(_fresh(modname, name), copy.deepcopy(b0), copy.deepcopy(kw))
+        # the pristine module gets the same values in objects that carry nothing the first call attached to them
+        r2 = _call(_fresh(modname, name), _strip_added(copy.deepcopy(b0), keys), copy.deepcopy(kw))
         if _outcome_bits(r1) != _outcome_bits(r2) and _outcome_bits(r1) is not None and _outcome_bits(r2) is not None:
             _record(modname, name, 'alias', b0, kw, r1, r2, first=a0)
-            return
+            return True
+    return False
+
+
+# ------------------------------------------------------------------------------------------------
+# further histories a caller can produce around a call (all compared bit-for-bit with the real call's own outcome)
+
+TWINS = {'xfab.tools': 'xfab.laue', 'xfab.laue': 'xfab.tools'}
+
+
+def _malformed(a0):
+    """argument lists a careless caller produces (a truncated vector, None): what they raise is not judged, what they leave behind is"""
+    out = []
+    for i, a in enumerate(a0):
+        if isinstance(a, np.ndarray) and a.ndim >= 1 and a.shape[0] > 1:
+            v = a[:-1].copy()
+        elif isinstance(a, (list, tuple)) and len(a) > 1:
+            v = type(a)(copy.deepcopy(a[:-1]))
+        else:
+            continue
+        b = list(copy.deepcopy(a0))
+        b[i] = v
+        out.append(b)
+        break
+    if a0:
+        b = list(copy.deepcopy(a0))
+        b[0] = None
+        out.append(b)
+    return out
+
+
+def _after_error_probe(modname, name, f, a0, kw, live, ref, b_live):
+    """a call with malformed arguments (normally an exception the caller catches) must leave no trace: the same function, and its
+    twin in the other module (tools <-> laue), still compute what a pristine module computes"""
+    bad_calls = _malformed(a0)
+    if not bad_calls:
+        return False
+    raised = 0
+    for b in bad_calls:
+        raised += _call(f, copy.deepcopy(b), copy.deepcopy(kw))[0] == 'raise'
+    STATS['after_error_probes'] = STATS.get('after_error_probes', 0) + 1
+    r1 = _call(f, copy.deepcopy(a0), copy.deepcopy(kw))
+    if _outcome_bits(r1) != b_live:
+        _record(modname, name, 'after-error', a0, kw, r1, ref, first=bad_calls)
+        return True
+    other = TWINS.get(modname)
+    if other and other in sys.modules and hasattr(sys.modules[other], name):
+        g = getattr(sys.modules[other], name)
+        try:
+            gf = _fresh(other, name)
+        except Exception:
+            return False
+        r1 = _call(g, copy.deepcopy(a0), copy.deepcopy(kw))
+        r2 = _call(gf, copy.deepcopy(a0), copy.deepcopy(kw))
+        if _outcome_bits(r1) != _outcome_bits(r2) and _outcome_bits(r1) is not None and _outcome_bits(r2) is not None:
+            _record(other, name, 'after-error', a0, kw, r1, r2, first=bad_calls)
+            HISTORY_EVENTS[-1]['error_calls_made_in'] = '%s.%s' % (modname.split('.')[-1], name)
+            return True
+    return False
+
+
+# functions that (directly or through a callee) consult the package-wide validation switch xfab.CHECKS: the only ones whose OUTCOME may
+# depend on it, and only by not raising the guard's ValueError (property C20); reviewed list, cf. `grep -n CHECKS.activated xfab/*.py`
+CHECK_GUARDED = {'ubi_to_u', 'ubi_to_u_and_eps', 'ubi_to_u_b', 'ubi_to_rod', 'euler_to_u', 'u_to_euler', 'u_to_rod', 'u_to_ubi',
+                 'ub_to_u_b', 'Umis'}
+
+
+class _Ambient:
+    """process state that no property lets a numeric result depend on"""
+
+    def __init__(self, what):
+        self.what = what
+
+    def __enter__(self):
+        import logging
+        self.saved = []
+        if self.what == 'logging-debug':
+            names = ['xfab'] + [n_ for n_ in list(logging.root.manager.loggerDict) if n_.startswith('xfab.')] + list(MODULES)
+            self.handler = logging.NullHandler()
+            for n_ in dict.fromkeys(names):
+                lg = logging.getLogger(n_)
+                self.saved.append((lg, lg.level, lg.propagate))
+                lg.setLevel(logging.DEBUG)
+            top = logging.getLogger('xfab')
+            top.addHandler(self.handler)
+            top.propagate = False
+        elif self.what == 'checks-off':
+            import xfab
+            self.state = xfab.CHECKS.activated
+            xfab.CHECKS.activated = False
+        return self
+
+    def __exit__(self, *exc):
+        import logging
+        if self.what == 'logging-debug':
+            for lg, lvl, prop in self.saved:
+                lg.setLevel(lvl)
+                lg.propagate = prop
+            logging.getLogger('xfab').removeHandler(self.handler)
+        elif self.what == 'checks-off':
+            import xfab
+            xfab.CHECKS.activated = self.state
+        return False
+
+
+def _ambient_probe(modname, name, f, a0, kw, live, ref, b_live):
+    """the outcome may not depend on the logging configuration, nor -- outside the reviewed guard sites of property C20 -- on the
+    validation switch"""
+    import xfab
+    for what in ('logging-debug', 'checks-off'):
+        if what == 'checks-off':
+            try:
+                if xfab.CHECKS.activated is not True:
+                    continue
+            except Exception:
+                continue
+            if name in CHECK_GUARDED and live[0] == 'raise' and live[1] == 'ValueError':
+                continue
+        with _Ambient(what):
+            r1 = _call(f, copy.deepcopy(a0), copy.deepcopy(kw))
+        STATS['ambient_probes'] = STATS.get('ambient_probes', 0) + 1
+        if _outcome_bits(r1) != b_live:
+            _record(modname, name, 'ambient-' + what, a0, kw, r1, live)
+            return True
+    return False
+
+
+def _retained_probe(modname, name, f, a0, kw, live, ref, b_live):
+    """the object handed to the caller still holds what it held when it was returned, after the other calls made above (with other
+    argument values): a result buffer shared between calls is overwritten by the next call"""
+    if live[0] != 'ok':
+        return False
+    idx = [i for i, a in enumerate(a0) if _numeric(a)]
+    if idx:
+        other = tuple(_scaled(a, 1 + 1e-3) if i in idx else copy.deepcopy(a) for i, a in enumerate(a0))
+        _call(f, other, copy.deepcopy(kw))
+    else:
+        other = None
+    STATS['retained_probes'] = STATS.get('retained_probes', 0) + 1
+    now = _outcome_bits(live)
+    if now != b_live:
+        _record(modname, name, 'retained', a0, kw, ('ok', copy.deepcopy(live[1])), ref, first=other)
+        return True
+    return False
+
+
+def _edit_result(r):
+    """what a caller does with a returned array: overwrite it in place"""
+    if isinstance(r, np.ndarray) and r.dtype.kind in 'fiuc' and r.size and r.flags.writeable:
+        try:
+            r *= 2
+            r += 1
+            return True
+        except Exception:
+            return False
+    if isinstance(r, list):
+        ok = False
+        for i, x in enumerate(r):
+            if isinstance(x, (float, int, np.generic)) and not isinstance(x, bool):
+                r[i] = x * 2 + 1
+                ok = True
+            else:
+                ok = _edit_result(x) or ok
+        return ok
+    if isinstance(r, tuple):
+        ok = False
+        for x in r:
+            ok = _edit_result(x) or ok
+        return ok
+    return False
+
+
+def _result_edit_probe(modname, name, f, a0, kw, live, ref, b_live):
+    """f(a); the caller edits the returned array in place; f(a) again: a memo that hands out its own storage is corrupted"""
+    if live[0] != 'ok':
+        return False
+    r = _call(f, copy.deepcopy(a0), copy.deepcopy(kw))
+    if r[0] != 'ok' or not _edit_result(r[1]):
+        return False
+    STATS['result_edit_probes'] = STATS.get('result_edit_probes', 0) + 1
+    r1 = _call(f, copy.deepcopy(a0), copy.deepcopy(kw))
+    if _outcome_bits(r1) != b_live:
+        _record(modname, name, 'result-edit', a0, kw, r1, ref)
+        return True
+    return False
 
 
 def _wrap(modname, name, f):
@@ -468,7 +728,7 @@ def _wrap(modname, name, f):
                 except Exception:
                     pass
                 try:
-                    if name not in NO_DTYPE and not slow and not k0:
+                    if name not in NO_DTYPE and not k0:          # (slow functions too: they are probed on their first calls only)
                         _dtype_probe(modname, name, f, a0, k0)
                 except Exception:
                     pass
@@ -595,9 +855,24 @@ def violations():
         if k in seen:
             continue
         seen.add(k)
-        out.append(dict(e, purity='history', known_id=None,
-                        what='result depends on the call history, not only on the argument values (scenario "%s": the module as used '
-                             'so far and a pristine copy of the module disagree on the same arguments)' % e['scenario'],
+        sc = e['scenario']
+        if sc.startswith('ambient-'):
+            what = ('the outcome depends on process state no property lets it depend on (%s): the same call with the same arguments gives '
+                    'something else' % {'ambient-logging-debug': 'logging level DEBUG on the xfab loggers',
+                                        'ambient-checks-off': 'xfab.CHECKS.activated = False, outside the reviewed guard sites'}.get(sc, sc))
+        elif sc == 'retained':
+            what = ('the object returned to the caller was overwritten by a later call of the same function with other arguments '
+                    '(a result buffer shared between calls)')
+        elif sc == 'result-edit':
+            what = ('after the caller edited a returned array in place, the same call returns the edited values (the function hands out its '
+                    'own stored result)')
+        elif sc == 'after-error':
+            what = ('after a call with malformed arguments (an exception the caller catches) the function computes something else for the '
+                    'same valid arguments than a pristine copy of the module')
+        else:
+            what = ('result depends on the call history, not only on the argument values (scenario "%s": the module as used '
+                    'so far and a pristine copy of the module disagree on the same arguments)' % sc)
+        out.append(dict(e, purity='history', known_id=None, what=what,
                         observed=e['result_in_used_module'], expected=e['result_in_pristine_module']))
     for e in DTYPE_EVENTS:
         k = (e['fn'], 'dtype')
@@ -633,6 +908,11 @@ def replay(v):
     f = getattr(f, '__wrapped__', f)
 
     def conv(x):
+        import types
+        if isinstance(x, dict) and '__object__' in x:
+            return types.SimpleNamespace(**{k: conv(v) if isinstance(v, dict) else v for k, v in x['attrs'].items()})
+        if isinstance(x, list) and x and isinstance(x[0], dict) and '__object__' in x[0]:
+            return [conv(y) for y in x]
         return np.array(x, float) if isinstance(x, list) and x and isinstance(x[0], list) else x
     if v.get('purity') == 'container' and v.get('container') == 'keyword-arguments':
         base = [conv(x) for x in v['args']]
@@ -685,16 +965,42 @@ def replay(v):
         return 1 if bad else 0
     args = [conv(x) for x in v['args']]
     kw = v.get('kwargs') or {}
-    first = [conv(x) for x in v['first_call_args']] if v.get('first_call_args') is not None else None
+    first = [conv(x) for x in v['first_call_args']] if v.get('first_call_args') is not None and v.get('scenario') != 'after-error' else None
     fresh = _fresh('xfab.' + modname, name)
-    if v['scenario'] == 'alias':
+    if v['scenario'].startswith('ambient-'):
+        r2 = _call(f, copy.deepcopy(args), dict(kw))
+        with _Ambient(v['scenario'][len('ambient-'):]):
+            r1 = _call(f, copy.deepcopy(args), dict(kw))
+    elif v['scenario'] == 'retained':
+        r2 = _call(f, copy.deepcopy(args), dict(kw))
+        keep = copy.deepcopy(r2)
+        if first is not None:
+            _call(f, copy.deepcopy(first), dict(kw))
+        r1, r2 = r2, keep
+    elif v['scenario'] == 'result-edit':
+        r2 = _call(fresh, copy.deepcopy(args), dict(kw))
+        r = _call(f, copy.deepcopy(args), dict(kw))
+        if r[0] == 'ok':
+            _edit_result(r[1])
+        r1 = _call(f, copy.deepcopy(args), dict(kw))
+    elif v['scenario'] == 'after-error':
+        em, en = (v.get('error_calls_made_in') or v['fn']).split('.')
+        ef = getattr(importlib.import_module('xfab.' + em), en)
+        for b in v.get('first_call_args') or []:
+            _call(ef, [conv(x) for x in b], dict(kw))
+        r1 = _call(f, copy.deepcopy(args), dict(kw))
+        r2 = _call(fresh, copy.deepcopy(args), dict(kw))
+    elif v['scenario'] == 'alias':
         b0 = copy.deepcopy(first)
+        keys0 = _object_keys(b0)
         _call(f, b0, dict(kw))
         for x in b0:
             if isinstance(x, (list, np.ndarray)) and _numeric(x):
                 _scale_inplace(x, 1 + 1e-3)
+            elif _has_objects(x):
+                _perturb_objects(x, 1 + 1e-3)
         r1 = _call(f, b0, dict(kw))
-        r2 = _call(fresh, copy.deepcopy(b0), dict(kw))
+        r2 = _call(fresh, _strip_added(copy.deepcopy(b0), keys0), dict(kw))
     elif v['scenario'] == 'live':
         for n_, a_, k_ in v.get('preceding_calls') or []:
             g_ = getattr(m, n_, None)
